@@ -28,10 +28,17 @@ def cases(tier, seed):
     n = 640 if tier == "quick" else 12800
     out = [{"seed": seed, "idx": i, "kind": "profiles"} for i in range(n)]
     out += [{"seed": seed, "idx": i, "kind": "stability"} for i in range(16 if tier == "quick" else 64)]
-    return out
+    out_ = out
+    if tier == "thorough":
+        out_.append({"seed": seed, "kind": "repo_tests", "_cost": 40})
+    return out_
 
 
 def run_case(case):
+    if case.get("kind") == "repo_tests":
+        from vlib import hooks
+
+        return hooks.run_repo_tests(ID, ['test_pbl_model.py', 'test_interface.py', 'test_integration.py'])
     if case["kind"] == "stability":
         return run_stability(case)
     return run_profiles(case)
